@@ -6,8 +6,8 @@ CONSTANTS
   WS <- MCWS
   TokPool <- CharToks
   Styles <- AllStyles
-  Seps <- QuickSeps
-  Pads <- QuickPads
+  Seps <- CharSeps
+  Pads <- CharPads
 INVARIANT TypeOK
 INVARIANT NoError
 INVARIANT RoundTrip
